@@ -135,11 +135,11 @@ def documents(ctx):
                 "sensor_id", "sketch_name", "battery_level", "heartbeat", "sleeping", "description", "1", "0", "x"]
         return {rng.choice(keys): rand_json(depth + 1) for _ in range(rng.randint(0, 5))}
 
-    for i in range(ctx.pick(1500, 60000)):
+    for i in range(ctx.pick(1500, 200000)):
         yield f"rand{i}", json.dumps({str(rng.randint(0, 3)): rand_json(0) for _ in range(rng.randint(0, 3))}).encode()
     # byte-level corruption of valid files
     good = json.dumps(NATIVE, indent=2).encode()
-    for i in range(ctx.pick(500, 20000)):
+    for i in range(ctx.pick(500, 80000)):
         data = bytearray(good)
         for _ in range(rng.randint(1, 3)):
             pos = rng.randrange(len(data))
